@@ -103,8 +103,55 @@ def hierarchy_roots(canon, lib='work'):
     return sorted(n for n, d in canon['defs'].items() if d['lib'] == lib and n not in inst)
 
 
+def election_candidates(modules):
+    """The tops the reader's re-election procedure CAN arrive at (the open finding 'top election' is exactly
+    this procedure: it reacts only when the instantiated module is the current top and then walks ONE level up
+    from an arbitrary element of the reference set). modules: [(name, is_cell, [instantiated module names])]
+    in file order. Used only to give the known finding a precise signature."""
+    states = {None}
+    parents = {}
+    for name, is_cell, insts in modules:
+        if is_cell:
+            continue
+        states = set(name if t is None else t for t in states)
+        for ref in insts:
+            nxt = set()
+            for t in states:
+                if ref == t:
+                    cands = set(parents.get(name) or [name])
+                    nxt |= cands
+                else:
+                    nxt.add(t)
+            states = nxt
+            parents.setdefault(ref, []).append(name)
+    return states
+
+
+def top_item(prop_prefix, root, got_top, modules):
+    cands = election_candidates(modules)
+    if got_top in cands and got_top != root:
+        sig = 'C06|top|re-election-walks-one-level-only'
+    else:
+        sig = 'C06|top|unclassified'
+    return item('top', sig, 'root module %r, elected top %r (the one-level re-election can give %r)' % (root, got_top, sorted(map(str, cands))))
+
+
 def reversed_assigns(assigns):
     return sorted([[w, list(reversed(p))] for w, p in assigns], key=lambda a: (a[0], str(a[1])))
+
+
+def assigns_match_up_to_pin_reversal(exp, got):
+    """every assign is there, each either as meant or (multi-bit ones) with its pin order exactly reversed"""
+    rest = [list(map(list, p)) for w, p in got]
+    for w, p in exp:
+        p = list(map(list, p))
+        if p in rest:
+            rest.remove(p)
+        elif w > 1 and list(reversed(p)) in rest:
+            rest.remove(list(reversed(p)))
+        else:
+            return False
+    return not rest
 
 
 def c06_compare(design, exp, got):
@@ -112,11 +159,8 @@ def c06_compare(design, exp, got):
     items = []
     instantiated = set(i['ref'] for d in got['defs'].values() for i in d['insts'].values())
     if exp['top'] != got['top']:
-        if got['top'] in instantiated and exp['top'] is not None:
-            sig = 'C06|top|elected-module-is-instantiated-by-another-module'
-        else:
-            sig = 'C06|top|unclassified'
-        items.append(item('top', sig, 'root module %r, elected top %r' % (exp['top'], got['top'])))
+        mods = [(m['name'], m['cell'], [it['mod'] for it in m['body'] if it['k'] == 'inst']) for m in design['modules']]
+        items.append(top_item('C06', exp['top'], got['top'], mods))
     # D1: port order taken from a named use that precedes the declaration
     decl_pos = {m['name']: k for k, m in enumerate(design['modules'])}
     fwd_named = set()
@@ -159,9 +203,7 @@ def c06_compare(design, exp, got):
             if e.get(f) == g.get(f):
                 continue
             sig = 'C06|%s|unclassified' % f
-            if f == 'assigns' and reversed_assigns(e[f]) == g[f]:
-                sig = 'C06|assigns|multi-bit-assign-pins-msb-first'
-            elif f == 'assigns' and sorted([[w, sorted(map(str, p))] for w, p in e[f]]) == sorted([[w, sorted(map(str, p))] for w, p in g[f]]):
+            if f == 'assigns' and assigns_match_up_to_pin_reversal(e[f], g[f]):
                 sig = 'C06|assigns|multi-bit-assign-pins-msb-first'
             elif f == 'ports' and mod is not None and len(e[f]) == len(g[f]) and all(
                     a == b or (a[0] == b[0] and a[2:] == b[2:] and b[1] == 'undefined' and
@@ -212,9 +254,13 @@ def c06_file_items(path):
     c = W.canon(n)
     roots = hierarchy_roots(c)
     if len(roots) == 1 and c['top'] != roots[0]:
-        instantiated = set(i['ref'] for d in c['defs'].values() for i in d['insts'].values())
-        sig = 'C06|top|elected-module-is-instantiated-by-another-module' if c['top'] in instantiated else 'C06|top|unclassified'
-        items.append(item('top', sig, 'root module %r, elected top %r' % (roots[0], c['top'])))
+        # declaration order = order of the definitions in the work library; instances in order of creation
+        mods = []
+        for lib in n.libraries:
+            if lib.name == 'work':
+                for d in lib.definitions:
+                    mods.append((d.name, False, [ch.reference.name for ch in d.children if not W.is_assign_instance(ch)]))
+        items.append(top_item('C06', roots[0], c['top'], mods))
     return items, n
 
 
@@ -260,6 +306,41 @@ def primitive_rewritten(b, a):
     return True
 
 
+def uncabled_ports_rewritten(b, a):
+    """finding: a port none of whose pins is on a wire of its module (and no cable of its name exists) is
+    written as a plain declaration and comes back with a cable of its own joined to it - nothing else differs"""
+    if a is None or b['ports'] != a['ports']:
+        return False
+    pinned = set()
+    for net, eps in b['nets'].items():
+        for ep in eps:
+            if ep.startswith('P:'):
+                pinned.add(ep[2:ep.rindex('[')])
+    loose = [p for p in b['ports'] if p[0] not in pinned and p[0] not in b['cables']]
+    if not loose:
+        return False
+    want_c = dict(b['cables'])
+    want_n = dict(b['nets'])
+    for p in loose:
+        want_c[p[0]] = [p[2], p[3], 'wire']
+        for k in range(p[2]):
+            want_n['%s[%d]' % (p[0], p[3] + k)] = ['P:%s[%d]' % (p[0], p[3] + k)]
+    if a['cables'] != want_c or a['nets'] != want_n:
+        return False
+    return all(b.get(f) == a.get(f) for f in set(b) | set(a) if f not in ('cables', 'nets'))
+
+
+def primitive_reg_lost(b, a):
+    """finding: the reg type of a port cable of a `celldefine module is not written (primitives get no cable
+    declarations) - nothing else differs"""
+    if a is None or b['lib'] != W.PRIM_LIB or set(b['cables']) != set(a['cables']):
+        return False
+    diff = [c for c in b['cables'] if b['cables'][c] != a['cables'][c]]
+    if not diff or not all(b['cables'][c][:2] == a['cables'][c][:2] and b['cables'][c][2] == 'reg' and a['cables'][c][2] == 'wire' for c in diff):
+        return False
+    return all(b.get(f) == a.get(f) for f in set(b) | set(a) if f != 'cables')
+
+
 def c04_compare(before, after, opts):
     items = []
     if before.get('top') != after.get('top'):
@@ -284,6 +365,12 @@ def c04_compare(before, after, opts):
         if b is not None and a is not None and primitive_rewritten(b, a):
             items.append(item('primitive', 'C04|inferred-primitive|comes-back-as-declared-inout-module', 'primitive %r' % n))
             continue
+        if b is not None and a is not None and uncabled_ports_rewritten(b, a):
+            items.append(item('ports', 'C04|port-without-cable|comes-back-with-a-cable-of-its-own', 'module %r' % n))
+            continue
+        if b is not None and a is not None and primitive_reg_lost(b, a):
+            items.append(item('cables', 'C04|cables|reg-type-of-primitive-port-not-written', 'primitive %r' % n))
+            continue
         if b is None or a is None:
             items.append(item('modules', 'C04|modules|unclassified', 'module %r %s' % (n, 'appeared' if b is None else 'lost')))
             continue
@@ -294,6 +381,21 @@ def c04_compare(before, after, opts):
     return items
 
 
+def names_needing_escape(netlist):
+    """names that are neither simple identifiers nor escaped identifiers (e.g. the a/b names made by flatten)"""
+    out = []
+    for lib in netlist.libraries:
+        if lib.name == W.ASSIGN_LIB:
+            continue
+        for d in lib.definitions:
+            for o in [d] + list(d.ports) + list(d.cables) + [c for c in d.children if not W.is_assign_instance(c)]:
+                n = o.name
+                if n is None or re.fullmatch(r'[A-Za-z_][A-Za-z0-9_]*', n) or (n.startswith('\\') and not re.search(r'\s', n.rstrip(' '))):
+                    continue
+                out.append(n)
+    return out
+
+
 def c04_items(netlist, opts=None):
     """one write/read cycle of a netlist the reader produced (possibly transformed)"""
     opts = dict(opts or {})
@@ -302,11 +404,18 @@ def c04_items(netlist, opts=None):
         text = compose_text(netlist, **opts)
     except Exception as e:  # noqa
         m = norm_msg(e)
+        if any(p.name is None for lib in netlist.libraries for d in lib.definitions for p in d.ports):
+            return [item('compose-raises', 'C04|compose-raises|netlist-with-unnamed-ports|' + m,
+                         'composer raised %s on a netlist with unnamed ports (positional map on a never-declared module)' % m)], None, None
         return [item('compose-raises', 'C04|compose-raises|' + m, 'composer raised %s' % m)], None, None
     try:
         n2 = parse_text(text)
     except Exception as e:  # noqa
         m = norm_msg(e)
+        bad = names_needing_escape(netlist)
+        if bad:
+            return [item('reparse-rejected', 'C04|reparse-rejected|name-that-needs-escaping-written-unescaped',
+                         'the written text is rejected by the reader (%s); names written without a leading backslash: %r' % (m, bad[:3]))], text, None
         return [item('reparse-rejected', 'C04|reparse-rejected|' + m, 'the written text is rejected by the reader: %s' % m)], text, None
     after = W.canon(n2)
     items = c04_compare(before, after, opts)
